@@ -218,6 +218,13 @@ def M_sb_extend(it, ctx, args, st):
         yield s2, Agg('SEBuilder', b.fields[:3] + (b.fields[3] + tuple(extra),))
 
 
+def M_sb_parameters(it, ctx, args, st):
+    """Builder::parameters(iter): the parameter map is *replaced* by the collected entries (conjure builder setter for a map field)"""
+    b = args[0]
+    for s2, r in M_sb_extend(it, ctx, [Agg('SEBuilder', b.fields[:3] + ((),)), args[1]], st):
+        yield s2, r
+
+
 def M_sb_build(it, ctx, args, st):
     yield st, Agg('SerializableError', args[0].fields)
 
@@ -234,7 +241,7 @@ def M_display_to_string(it, ctx, args, st):
 ENCODE_MODELS = [
     (SE + r'SerializableError::builder', M_sb_new),
     (SE + r'Builder::<.*>::error_code', M_sb_set(0)), (SE + r'Builder::<.*>::error_name::<.*>', M_sb_set(1)), (SE + r'Builder::<.*>::error_instance_id', M_sb_set(2)),
-    (SE + r'Builder::<.*>::insert_parameters::<.*>', M_sb_insert), (SE + r'Builder::<.*>::extend_parameters::<.*>', M_sb_extend), (SE + r'Builder::<.*>::build', M_sb_build),
+    (SE + r'Builder::<.*>::insert_parameters::<.*>', M_sb_insert), (SE + r'Builder::<.*>::extend_parameters::<.*>', M_sb_extend), (SE + r'Builder::<.*>::parameters::<.*>', M_sb_parameters), (SE + r'Builder::<.*>::build', M_sb_build),
     (r'<(?:bool|f64|f32) as (?:std|alloc)::string::ToString>::to_string', M_display_to_string),
 ]
 # parameter kinds of the harness error type: how the field's Serialize impl presents it, and the text the statement prescribes
